@@ -57,11 +57,12 @@ pub fn check(r: &ExecResult, subs: &[u32]) -> Vec<Finding> {
 pub fn scenarios(tier: Tier) -> Vec<Scenario> {
     let mut v = vec![];
     let mut add = |nsubs: u32, np: u32, k: u32, reducers: u32, keep_of: &dyn Fn(u32, u32) -> bool, pat: &str, cap: usize, bound: u32| {
+        let with_eff = cap == 16;
         let all = ((1u32 << reducers) - 1) as u8;
         let mut prog = Program::new(StoreSpec::new(reducers, cap, Pol::Block));
         prog = producers(prog, np, k, |p, id| {
             let q = id % 100;
-            Op::Dispatch(Act::new(id).keep(if keep_of(p, q) { all } else { 0 }))
+            Op::Dispatch(Act::new(id).keep(if keep_of(p, q) { all } else { 0 }).eff(0, if with_eff && q == 0 { EFF_TASK } else { EFF_NONE }))
         });
         let mut main = vec![];
         let subs: Vec<u32> = (1..=nsubs).collect();
@@ -70,7 +71,7 @@ pub fn scenarios(tier: Tier) -> Vec<Scenario> {
         }
         main.extend([Op::SpawnAll, Op::JoinAll, Op::Stop]);
         prog = prog.main(main);
-        let name = format!("C03/S{}P{}k{}r{}{}cap{}", nsubs, np, k, reducers, pat, cap);
+        let name = format!("C03/S{}P{}k{}r{}{}cap{}{}", nsubs, np, k, reducers, pat, cap, if with_eff { "eff" } else { "" });
         v.push(scn(name, prog, bound, opts_elide(), move |r, _| check(r, &subs)));
     };
     let pats: Vec<(&str, Box<dyn Fn(u32, u32) -> bool>)> = vec![
